@@ -737,7 +737,15 @@ def oracle_portfolio(case):
     if 'gas' in case['nodes'] and len(case['nodes']) == (3 if has_heat else 2):
         col = case['name'] + ' (gas)'
         got = out['dispatch'][col].values.astype(float)[I]
-        exp = -v / P['eff'] - (P['cons'] * on_r if has_on else 0.) - (P['start_fuel'] * start_r if has_start else 0.)
+        if has_start:
+            sf = P['start_fuel'] * start_r
+        elif has_on:
+            # no start variables: the start consumption must still be drawn at the off->on transitions
+            prev_on = np.concatenate(([1. if tar > 0 else 0.], on_r[:-1]))
+            sf = P['start_fuel'] * ((on_r == 1) & (prev_on == 0))
+        else:
+            sf = 0.
+        exp = -v / P['eff'] - (P['cons'] * on_r if has_on else 0.) - sf
         bad = np.where(np.abs(got - exp) > 1e-6 * max(1., float(np.abs(exp).max())))[0]
         if len(bad):
             t = int(bad[0])
